@@ -1,11 +1,151 @@
-import importlib.util, os
+"""C24 - block execution reads exactly the declared keys from parent state.
+fetcher level (this file):
+  design : spec/Fetcher.tla, the fetcher's goroutine structure (Fetch critical section + task sends, workers, set,
+           handleErr/stop, Get, Wait) with Keys.WithoutPermissions in front, checked exhaustively by TLC
+  binding: (tv) the real fetcher.Fetcher over a recording / gated / faulting parent state, fed through the real
+           state.Keys.WithoutPermissions, under a seeded controller and TLC-generated schedules; every parent read,
+           Fetch/Get/Stop/Wait call and return is validated by TLC against spec/FetcherContract.tla
+block level (checks/_c24_block.py, written by the lead): real Processor.Execute with a recording parent view."""
+import importlib.util
+import json
+import os
+import random
+import sys
 import vlib
+sys.path.insert(0, os.path.dirname(os.path.abspath(__file__)))
+import _gated  # noqa: E402
+
 _s = importlib.util.spec_from_file_location("_c24_block", os.path.join(os.path.dirname(__file__), "_c24_block.py"))
 bl = importlib.util.module_from_spec(_s)
 _s.loader.exec_module(bl)
+
 LEVEL = "model_checking"
+PKG = "internal/fetcher"
+FILES = ["verif_fetcher_test.go"]
+TEST = "^TestVerifFetcherRecord$"
+
+
+def design(ctx):
+    cfgs = ["Fetcher_MC_quick.cfg"]
+    if not ctx.quick:
+        cfgs += ["Fetcher_MC_w2.cfg", "Fetcher_MC_k3.cfg"]
+    for cfg in cfgs:
+        r = vlib.tlc_mc(ctx, "Fetcher_MC", cfg, label=cfg[:-4], coverage=(cfg == "Fetcher_MC_quick.cfg"),
+                        allow_zero=("Terminating",), timeout=3000)
+        if r["violated"]:
+            raise vlib.Infra("design step: %s violates %s" % (cfg, r["violated"]))
+    if not ctx.quick:
+        r = vlib.tlc_mc(ctx, "Fetcher_MC", "Fetcher_MC_original.cfg", label="orig", expect_violation=True)
+        ctx.cov["design_step_detects_empty_key_reads_of_WithoutPermissions"] = r["violated"]
+        if not r["violated"]:
+            raise vlib.Infra("sensitivity: the model of the originally coded WithoutPermissions reads only declared keys")
+        r = vlib.tlc_mc(ctx, "Fetcher_MC", "Fetcher_MC_dupid.cfg", label="dupid", expect_violation=True)
+        ctx.cov["design_step_detects_waiters_resolved_by_tx_id"] = r["violated"]
+        if not r["violated"]:
+            raise vlib.Infra("sensitivity: the model of waiters resolved through f.txs[id] no longer violates the contract")
+
+
+def tlc_scripts(ctx, num):
+    behs = vlib.tlc_behaviours(ctx, "FetcherContract_Gen", "FetcherContract_Gen.cfg", num=num, depth=90, label="gen")
+    uniq = {json.dumps(b, sort_keys=True): b for b in behs if len(b["script"]) >= 5}
+    rng = random.Random(ctx.seed)
+    scs = []
+    for b in uniq.values():
+        calls = [{"tx": i + 1, "keys": sorted(k)} for i, k in enumerate(b["calls"])]
+        if rng.random() < 0.3 and len(calls) > 1:          # the same transaction submitted twice
+            calls[-1] = {"tx": calls[0]["tx"], "keys": list(calls[0]["keys"])}
+        parent = {k: v for k, v in b["parent"].items() if k != "EMPTY"}
+        scs.append({"workers": rng.choice([1, 2, 3, 4]), "txcap": rng.choice([1, len(calls), len(calls)]),
+                    "calls": calls, "parent": parent, "label": "tlc-behaviour",
+                    "script": [{"op": s["op"], "c": s["c"], "k": s["k"]} for s in b["script"]]})
+    p = os.path.join(ctx.work, "scripts.json")
+    json.dump(scs, open(p, "w"))
+    ctx.add("tlc_behaviours_used_as_schedules", len(scs))
+    if scs:
+        ctx.sample({"kind": "tlc-generated-schedule", "calls": scs[0]["calls"], "script": scs[0]["script"][:10]})
+    return p, len(scs)
+
+
+def sig(f):
+    ev = f.get("event", {})
+    if ev.get("ev") == "read" and ev.get("k") == "EMPTY":
+        return "read:empty-key-not-declared"
+    return _gated.sig("FetcherContract")(f)
+
+
+def fetcher_level(ctx):
+    scripts, ns = tlc_scripts(ctx, ctx.pick(30, 800))
+    n = ctx.pick(120, 4000) + 4 + ns
+    summary, files = _gated.record(ctx, PKG, FILES, TEST, "fe", n, only=ctx.only, scripts=scripts)
+    hangs = summary.get("hangs") or []
+    if not hangs and ctx.only is None and len(files) < n:
+        raise vlib.Infra("recorder wrote %d of %d scenarios" % (len(files), n))
+    cnt = {"events": 0, "parent_reads": 0, "keys_read_more_than_once": 0, "with_overlapping_key_sets": 0,
+           "with_duplicate_tx_id": 0, "with_read_error": 0, "get_ok": 0, "get_err": 0, "get_stopped": 0,
+           "wait_ok": 0, "wait_err": 0, "wait_stopped": 0, "fetch_blocked_on_full_channel": 0}
+    distinct = set()
+    first = None
+    for f in files:
+        lines = vlib.read_ndjson(f)
+        first = first or lines
+        cnt["events"] += len(lines)
+        calls = lines[0]["calls"]
+        txs = [c["tx"] for c in calls]
+        overlap = any(set(a["keys"]) & set(b["keys"]) for i, a in enumerate(calls) for b in calls[i + 1:])
+        cnt["with_overlapping_key_sets"] += overlap
+        cnt["with_duplicate_tx_id"] += len(set(txs)) < len(txs)
+        reads = [l["k"] for l in lines if l["ev"] == "read"]
+        cnt["parent_reads"] += len(reads)
+        cnt["keys_read_more_than_once"] += len(reads) - len(set(reads))
+        cnt["with_read_error"] += any(l["ev"] == "read_ret" and l["res"] == "err" for l in lines)
+        for l in lines:
+            if l["ev"] == "get_ret" and "get_" + l["res"] in cnt:
+                cnt["get_" + l["res"]] += 1
+            if l["ev"] == "wait_ret" and "wait_" + l["res"] in cnt:
+                cnt["wait_" + l["res"]] += 1
+        evs = [l["ev"] for l in lines]
+        # a Fetch that returned only after a later gate was opened was blocked on the task channel
+        for i, l in enumerate(lines):
+            if l["ev"] == "fetch_call":
+                j = next((x for x in range(i, len(lines)) if lines[x]["ev"] == "fetch_ret" and lines[x]["c"] == l["c"]), None)
+                if j is not None and any(e == "read_ret" for e in evs[i:j]):
+                    cnt["fetch_blocked_on_full_channel"] += 1
+                    break
+        if overlap or len(set(txs)) < len(txs) or any(l["ev"] == "read_ret" and l["res"] == "err" for l in lines):
+            distinct.add(hash(json.dumps(lines[1:], sort_keys=True)))
+    ctx.add("evaluations", len(files))
+    ctx.add("distinct_nontrivial", len(distinct))
+    ctx.cov["fetcher_paths"] = cnt
+    ctx.sample({"kind": "recorded-fetcher-trace", "lines": (first or [])[:10]})
+    fails = vlib.validate_scenarios(ctx, "FetcherContract_Trace", "FetcherContract_Trace.cfg", files, label="tvf",
+                                    signature_fn=sig)
+    confirmed = _gated.confirm_hangs(
+        ctx, fails, lambda idx: _gated.record(ctx, PKG, FILES, TEST, "fe", n, only=idx, scripts=scripts)[0])
+    vacuous = ctx.only is None and not confirmed and (cnt["with_overlapping_key_sets"] == 0 or cnt["get_err"] == 0
+                                                      or cnt["with_duplicate_tx_id"] == 0 or cnt["get_ok"] == 0)
+    if vacuous:
+        raise vlib.Infra("vacuous fetcher run: %s" % cnt)
+    for f in files:
+        if os.path.exists(f):
+            os.remove(f)
+    return confirmed
 
 
 def run(ctx):
-    fails = bl.run_block_level(ctx, ctx.pick(40, 500))
-    vlib.report_failures(ctx, fails, bl.ch.describe)
+    if ctx.only is None and not os.environ.get("VERIF_SKIP_DESIGN"):   # (dev aid for mutant self-tests)
+        design(ctx)
+    fails = fetcher_level(ctx)
+    nf = len(fails)
+    if ctx.only is None and not os.environ.get("VERIF_SKIP_BLOCK"):
+        fails += bl.run_block_level(ctx, ctx.pick(30, 400))
+    vlib.report_failures(ctx, fails, lambda f: _gated.describe(f) if f in fails[:nf] else bl.ch.describe(f))
+    ctx.cov["rule"] = ("fetcher level: seeded controller over the real Fetcher: 1-6 Fetch calls over 1-5 keys (overlapping "
+                       "sets, repeated transaction ids), fetch concurrency 1-16, task channel capacity 1..#calls, parent "
+                       "values / absences / injected read errors, gated reads opened in seeded orders, Stop at a random "
+                       "point, plus 4 directed scripts and TLC-generated schedules of FetcherContract; non-trivial = "
+                       "overlapping key sets or a duplicate id or an injected error; distinct = distinct event sequences. "
+                       "block level: see _c24_block.py")
+    ctx.assumptions += ["Fetch is not called after Stop or Wait and Wait not while a Fetch is in flight (API contract)",
+                        "a repeated transaction id comes with the same declared key set (a transaction id determines its "
+                        "keys)",
+                        "reading a declared key more than once is not counted as a violation (measured in evidence)"]
